@@ -44,6 +44,10 @@ at the SAME tolerances -- never with another execution; ``_Ref`` only collects t
      and the interpolation floor vanishes there; C06 drives the all-zero field.)
  (d) scalar types -- as C06: one more communicator per shard built with dx / eul_grid_coord_shift as python floats (variant A) / 0-d
      arrays (B) / np.float64 (C) / 0-d float64 arrays (D); the kernels take no scalar at call time.
+ (e) grid origin -- as C06 (``c06.ORIGINS``): four more communicators per shard with eul_grid_coord_shift exactly 0.0 / dx/4 / x0 + dx/2
+     (x0 = -2 dx, +3.5 dx) on pool (dx, N) pairs; marker sets are moved with the origin and the dense reference, the support sets of the
+     tolerances and the cell coordinates of the first-moment check use the communicator's actual shift (cell centre i at i*dx + shift).
+     Counters batches_grid_origin_zero / _quarter_cell / _shifted_domain.
 Self-test of (a)-(d) (tools/mut.sh, quick tier, seed 0, ...Communicator2D.py; each reported VIOLATION, every witness carries the new dimension):
  15 (a) scalar spreading adds into ``np.ascontiguousarray(eul_grid_field)`` (a copy for non-contiguous targets)   spread(scalar)-left-target-unchanged, bilinear-identity(scalar),
                                                                                                                    force-integral(scalar), first moment: all 51 witnesses 'layout': views | fortran
@@ -142,6 +146,9 @@ REQUIRE = {
     "zero_force_spreads_into_prefilled_target": 1000,
     "vector_spreads_with_exactly_zero_force_component": 40,
     "batches_comm_built_with_other_scalar_types": 100,
+    "batches_grid_origin_zero": 40,
+    "batches_grid_origin_quarter_cell": 40,
+    "batches_grid_origin_shifted_domain": 80,
 }
 
 EPS64 = c06.EPS64
@@ -246,6 +253,8 @@ def run_shard(sh, rec):
     # one more communicator whose scalar constructor arguments (dx, eul_grid_coord_shift) are passed as another scalar type (C06's entry
     # and type per variant: shared numba cache)
     entries.append((c06.POOL[d][sh["variant"]][0], "scalar-types"))
+    # grid origins: communicators whose eul_grid_coord_shift is exactly 0 / dx/4 / x0 + dx/2 (c06.ORIGINS; same (dx, shift) pairs as C06)
+    entries += c06.origin_entries(c06.POOL[d][sh["variant"]], sh["variant"])
     first = None
     npred = 0
     for (x_range, nx, N), role in entries:
@@ -273,7 +282,9 @@ def run_shard(sh, rec):
                     rec.note(f"other-precision predecessor failed: {type(e).__name__}: {e}")
             skind = c06.SCALAR_TYPES[sh["variant"]] if role == "scalar-types" else None
             try:
-                if skind is None:
+                if role.startswith("origin:"):
+                    comm = c06.Comm(d, dx_t, N, real_t, kernel, shift_arg=c06.origin_shift(role[7:], dx_t, real_t))
+                elif skind is None:
                     comm = c06.Comm(d, dx_t, N, real_t, kernel, positional=(role == "sibling"))
                 else:
                     comm = c06.Comm(d, dx_t, N, real_t, kernel, dx_arg=c06.scalar_as(skind, dx_t), shift_arg=c06.scalar_as(skind, real_t(dx_t / 2)))
@@ -284,6 +295,8 @@ def run_shard(sh, rec):
             if first is None and role == "pool":
                 first = comm
                 c06.probe_excluded_layout(rec, rng, comm)
+        shiftf = comm.shiftf  # the shift this communicator was actually built with: every reference below uses it
+        off_origin = shiftf - float(real_t(dx_t / 2))  # marker sets are generated for the standard grid and moved with the grid origin
         if tier == "quick":
             nb = 30 if N >= 128 else 50
         else:
@@ -304,7 +317,10 @@ def run_shard(sh, rec):
             if d == 3 and shape[0] > shape[-1]:
                 rec.count("batches_grid_z_exceeds_x")
             rec.count({"pool": "batches_pool_comm", "bigN": "batches_pool_comm", "sibling": "batches_sibling_comm_shared_dx_or_N", "first-again": "batches_first_comm_after_sibling",
-                       "scalar-types": "batches_comm_built_with_other_scalar_types"}[role])
+                       "scalar-types": "batches_comm_built_with_other_scalar_types", "origin": "batches_grid_origin_not_half_a_cell"}[role.split(":")[0]])
+            if role.startswith("origin:"):
+                rec.count(c06.ORIGIN_COUNTER[role[7:]])
+                rec.count(f"batches_grid_origin_{role[7:]}")
             if role == "scalar-types":
                 rec.count(f"batches_dx_and_shift_passed_as_{c06.SCALAR_TYPES[sh['variant']]}")
             if N > 1024:
@@ -313,10 +329,14 @@ def run_shard(sh, rec):
                 rec.count("batches_N_equals_dim")
             dom = c06.make_domain(d, shape, x_range, real_t)
             P = marker_set(rng, kind, N, shape, dx_t, real_t, x_range, dom.position_field, rec)
+            if role.startswith("origin:"):
+                P = P + off_origin
             base = (d, sh["dtype"], kernel, c06.n_class(N), kind)
             meta = {"dim": d, "dtype": sh["dtype"], "kernel": kernel, "x_range": x_range, "shape": shape, "dx": dxf, "N": N, "markers": kind, "object": role}
             if role == "scalar-types":
                 meta["dx_and_shift_passed_as"] = c06.SCALAR_TYPES[sh["variant"]]
+            if role.startswith("origin:"):
+                meta["eul_grid_coord_shift"] = shiftf
             layout = c06.batch_layout(b)
             comm.set_layout(rng, layout)
             if layout is not None:
@@ -326,7 +346,7 @@ def run_shard(sh, rec):
             _check_batch(rec, rng, comm, P, shape, dxf, shiftf, eps, base, meta, kernel, real_t)
             comm.flush_calls(rec)
             if b == hist_at:
-                _history(rec, rng, comm, shape, dx_t, x_range, dom.position_field, dxf, shiftf, eps, base[:4], {k: v for k, v in meta.items() if k != "layout"}, kernel, real_t)
+                _history(rec, rng, comm, shape, dx_t, x_range, dom.position_field, off_origin, dxf, shiftf, eps, base[:4], {k: v for k, v in meta.items() if k != "layout"}, kernel, real_t)
         comm.set_layout(rng, None)
 
 
@@ -605,7 +625,7 @@ def _check_batch(rec, rng, comm, P, shape, dxf, shiftf, eps, base, meta, kernel,
                 rec.violation(f"peskin-first-moment({tag})-not-preserved", f"{msg} {meta}", {**wit, "F": Fm, "p": p})
 
 
-def _history(rec, rng, comm, shape, dx_t, x_range, pf, dxf, shiftf, eps, base4, meta, kernel, real_t):
+def _history(rec, rng, comm, shape, dx_t, x_range, pf, off_origin, dxf, shiftf, eps, base4, meta, kernel, real_t):
     """K calls of every kernel of ONE communicator in a tight loop in which every array argument is a TEMPORARY view ``stack[name][k]`` of
     different memory (marker sets, index/support/weight buffers, fields, outputs, pre-filled targets, forces: the view objects die after
     each call and CPython hands their id() to the next ones); afterwards every slot is compared with the dense reference at the module's
@@ -616,7 +636,7 @@ def _history(rec, rng, comm, shape, dx_t, x_range, pf, dxf, shiftf, eps, base4, 
     kinds = ["uniform" if (N == 1 and k == "duplicates") else k for k in kinds]
     sh_ = tuple(shape)
     S = {
-        "P": np.stack([marker_set(rng, k, N, shape, dx_t, real_t, x_range, pf, rec) for k in kinds]),
+        "P": np.stack([marker_set(rng, k, N, shape, dx_t, real_t, x_range, pf, rec) + off_origin for k in kinds]),
         "idx": np.full((K, d, N), -(2**40), dtype=int),
         "sup": util.sentinel_like(rng, (K,) + comm._bufs[None][1].shape, real_t).copy(),
         "w": util.sentinel_like(rng, (K,) + comm._bufs[None][2].shape, real_t).copy(),
